@@ -133,7 +133,18 @@ def run(tier):
                                     ev = True
             if not ev:
                 continue
-            succs = set(b.succ[sb])
+            # the test must be an emptiness / variant test, not a comparison with an arbitrary threshold
+            thresh = False
+            for x in origins(b, t["o"]):
+                if x[0] == "other" and x[1] >= 0:
+                    r = b.blocks[x[1]]["s"][x[2]]["r"]
+                    if r["k"] == "binop" and r["op"] in ("Gt", "Ge", "Lt", "Le", "Eq", "Ne"):
+                        cs = [core.const_int(r["a"]), core.const_int(r["b"])]
+                        if any(c is not None and c not in (0, 1) for c in cs):
+                            thresh = True
+            if thresh:
+                continue
+            succs = {x for x in b.succ[sb] if b.blocks[x]["t"]["k"] != "unreachable"}
             can = [s for s in succs if b.reachable([s]) & ok_blocks]
             cannot = [s for s in succs if not (b.reachable([s]) & ok_blocks)]
             if can and cannot:
